@@ -18,7 +18,7 @@ static struct {
   const char *argv[128];
   char *real_from[64], *real_to[64];
   int nreal;
-  char *mounted[64];
+  char *mounted[256];
   int nmounted;
   int fan, minfo, mount_ok, markfail, load;
   int stat_ok;
@@ -146,7 +146,20 @@ static int h_poll(struct pollfd *fds, nfds_t n, int timeout) {
 }
 static ssize_t h_read(int fd, void *buf, size_t n) {
   if (fd != FANFD) {
-    return read(fd, buf, n);
+    /* the mount table is a proc file: the kernel hands out whole records only, so a read is usually shorter than
+       the buffer although more follows */
+    ssize_t r = read(fd, buf, n);
+    if (r > 0) {
+      ssize_t cut = r;
+      while (cut > 0 && ((char *)buf)[cut - 1] != '\n') {
+        --cut;
+      }
+      if (cut > 0 && cut < r) {
+        lseek(fd, cut - r, SEEK_CUR);
+        r = cut;
+      }
+    }
+    return r;
   }
   printf("read\n");
   struct slot *s = S.active;
